@@ -9,7 +9,11 @@ from ..fam_recipe import cdesc as fr_cdesc, tdesc as fr_tdesc
 THEOREMS = ["C06.weight_only_equiv", "C06.weight_only_outputs", "C06.weight_only_equiv_conv", "C03.xfs_wo", "C03.xfs_drq", "C02.quantize_skeleton", "C17.dq_q_rounded",
             # C06b: the analytic bound of the SPECIFIED hybrid (dynamic-range) kernel, for any rounding rule
             "C06.drq_row_bound", "C06.drq_row_bound_rel", "C06.drq_row_bound_attained", "C06.drq_fc_bound", "C06.drq_fc_batch_bound",
-            "C06.drq_within_check_tolerance", "C06.check_tolerance_not_analytic"]
+            "C06.drq_within_check_tolerance", "C06.check_tolerance_not_analytic",
+            # C06c: what the emulated sub-channel pattern (BLOCKWISE weights) COMPUTES, over exact rationals (QModel/EmuSem.lean)
+            "C06.emulated_pattern_computes_fc", "C06.emulated_pattern_computes_fc_per_channel", "C06.emulated_pattern_computes_fc_per_block",
+            "C06.emulated_pattern_computes_fc_act", "C06.emulated_pattern_bias_relu", "C06.emulated_pattern_close_to_float",
+            "C06.emulated_pattern_stage_shapes", "C06.EmuWitness.axis0_differs", "C06.EmuWitness.no_transpose_differs"]
 
 
 def gen_tied(rng, i):
@@ -115,7 +119,7 @@ def run(ctx):
     fp.BMM_CONST_LHS[0] = 0.2   # BATCH_MATMUL with the CONSTANT on the left is generated here (finding D42 is classified by this check)
     ctx.rule = ("generated float models x accepted weight-only / float16 / dynamic-range recipes (4- and 8-bit, symmetric/asymmetric, per-tensor/per-channel, uniform and per-op mixed) x random inputs: interpreter(quantized model) vs interpreter(reference model built by the check from the INPUT model + constants decoded by the independent decoder); float32-rounding tolerance for weight-only/float16, generous end-to-end bound for dynamic range; pipeline compared with the Lean model; distinct = distinct (model, recipe)")
     ctx.explanation = ("PARTIAL: proved for weight-only / float16 rewrites, for EVERY kernel semantics and EVERY input: the rewritten graph runs iff the input graph with dequantized constants runs, and both compute the same value for every original tensor, in particular every graph output (C06.weight_only_equiv, _outputs, _conv; hypotheses = skeleton preserved (C02.quantize_skeleton) + DEQUANTIZE-on-constant shape, evaluated by the driver on the model's output of every generated case). Also proved: these modes request only DEQUANTIZE on constants / in-place quantization of constants (C03.xfs_wo, xfs_drq) and the value law of the stored constants (C17.dq_q_rounded). Dynamic range (C06b): for the hybrid kernel AS SPECIFIED (activation scale max|x|/127, symmetric weights, any rounding with error <= 1/2) the row result differs from the float model with dequantized constants by at most (max|x|/254)*sum|dequantized weights|, the constant is attained (drq_row_bound, drq_row_bound_rel, drq_row_bound_attained; whole operator, per-channel scales, per batch row); the check's tolerance 0.08*magnitude per operator is NOT this bound: it is implied by it only when max|x|*||w||_1 <= 20.32*magnitude (drq_within_check_tolerance) and is violated by a spec-exact kernel on a closed witness (check_tolerance_not_analytic) -- the tolerance is heuristic, calibrated on the clean tree. The equality of interpreter outputs is runtime behaviour (LiteRT kernels, incl. the dynamic 8-bit activation quantization of hybrid kernels) that the model cannot exhibit: it is executed, not proved.")
-    common.proof_side(ctx, THEOREMS, modules=["QProps.C06", "QProps.C06b", "QProps.C03", "QProps.C02", "QProps.C17", "QProps.C17b"])
+    common.proof_side(ctx, THEOREMS, modules=["QProps.C06", "QProps.C06b", "QProps.C06c", "QProps.C03", "QProps.C02", "QProps.C17", "QProps.C17b"])
     drv = common.Driver()
     interp = pl.Interp()
 
